@@ -20,6 +20,10 @@ non-default options with B of the same and of another shape (aba.third==first, b
 Round 4: explicit gen_fa_spectrum(p2_plus | n) -> reads / analysis calls of OTHER derived quantities -> spectrum reads, judged
 by the driver on the N it asked for (after-readers.*): a reader that silently regenerates the default spectrum passes every
 monitor, because the monitors see a correct explicit default generation.
+Round 5 (checklist items 28-33): every scalar form of dt / n / p2_plus / n_pad incl. MUTABLE 0-d arrays (judged on the value at
+call entry; argument-unchanged[0-d scalar]), on/off records of bool dtype, user-given settings outside the band of the data
+(settings-unchanged-by-spectrum-calls), results overwritten by the caller before the call is repeated
+(result-owned.repeat-after-overwrite==first).
 """
 import copy
 import pickle
@@ -105,8 +109,30 @@ RULE = ('case = (record, dt, Signal|AccSignal, p2_plus, explicit n); each case r
         'array-level generate_/calc_fa_spectrum, deepcopy / pickle copy analysed with other options, Fourier moments / Boore '
         'bandwidth, fas2values of the own spectrum; AccSignal also velocity, displacement, peaks, response spectra / series, '
         'cumulative / duration / all motion stats, every eqsig.im duration / intensity / period function -> fa_spectrum / '
-        'fa_freqs / fa_frequencies / max_fa_period in random order (also between the readers), judged on the N the driver asked for.')
-ASSUMPTIONS = ['finite 1-D record of length >= 2, real or - as returned by the library\'s own fas2signal - complex (judged against '
+        'fa_freqs / fa_frequencies / max_fa_period in random order (also between the readers), judged on the N the driver asked for. '
+        'Round 5: (28) dt as float / int / np.float64 / np.float32 / np.int64 / np.int32 / 0-d float64, float32 and int64 ARRAY, '
+        'n and p2_plus as int / np.int64 / np.int32 / 0-d int64 / int32 array, n_pad as True / np.True_ / 0-d bool array / 1 (and the '
+        'False forms); ONE scalar object per case goes to every call of the case and is compared with its entry copy after each '
+        'monitored call and at the end; a 0-d dt shared by the object(s) of a readers history; (29) on/off records as bool '
+        'ndarray and list of Python bools (rectangular pulses, telegraph, sign of a record, alternating) through every entry '
+        'point, bool arguments of reset_values / add_series / add_signal in the histories (two-sample records: every sweep starts '
+        'at npts 2; one-sample / one-entry forms: probes, counted); (31) rel_settings: smooth_fa_freqs and response_times with '
+        'entries above / at the Nyquist frequency, below the first bin, 0, periods <= 2 dt and beyond the record, sorted / '
+        'descending / shuffled, list / tuple / ndarray, through the constructor keyword or either setter, then 3..8 of the 14 '
+        'spectrum entry points and 2 value mutators (each first in turn), settings compared after every step with the driver\'s '
+        'own copy; (32) rel_owned: 4 of the 7 array-level entry points / inverse helpers per case, object cold or warm on the '
+        'default N / the same n / the same p2_plus, every returned array overwritten with 0 / -7250 / 1e300, then the same call on '
+        'the same and on a fresh object.')
+ASSUMPTIONS = ['scalar arguments: dt is a positive finite Python / NumPy float or integer scalar or a 0-d float / integer array; n and '
+               'p2_plus are Python / NumPy integers or 0-d integer arrays; n_pad is judged by its truthiness (True, np.True_, 0-d '
+               'bool array, 1); bool dt / bool p2_plus / one-entry arrays: counted, not judged. A 0-d array argument is judged on '
+               'the value it had at call entry and must hold the same bits afterwards; a 0-d float32 dt belongs to the '
+               'single-precision class',
+               'bool-dtype (on/off) records are records: the library casts them to float; judged like any other record',
+               'item 33 (several accepted conventions): the only either-or of this module is the memo of a copy (carried or '
+               'regenerated), decided per read by the observed event "the read triggered a generation", never by fit; ties of '
+               'max_fa_period are genuine ties of the oracle spectrum',
+               'finite 1-D record of length >= 2, real or - as returned by the library\'s own fas2signal - complex (judged against '
                'the DFT of the complex values; Parseval only for real records); one-sample and float16 records: counted, not '
                'judged; dt > 0 finite',
                'single-precision class: numpy transforms a float32 record in float32 (complex64 result) and a np.float32 dt '
@@ -165,7 +191,9 @@ MIN_EVALS = {   # about half of what a normal run reaches
               'after-raise.nbins==N//2': 1600, 'after-raise.bins==dt*DFT(own current values)': 1600,
               'after-raise.freqs==k/(N*dt)': 1600, 'non-finite-record.spectrum-of-current-values': 400,
               'aba.third==first': 1100, 'after-readers.nbins==N//2': 600, 'after-readers.bins==dt*DFT': 600,
-              'after-readers.freqs==k/(N*dt)': 600, 'after-readers.max_fa_period-on-requested-grid': 170},
+              'after-readers.freqs==k/(N*dt)': 600, 'after-readers.max_fa_period-on-requested-grid': 170,
+              'argument-unchanged[0-d scalar]': 4000, 'settings-unchanged-by-spectrum-calls': 600,
+              'result-owned.repeat-after-overwrite==first': 600},
     'thorough': {'gen_fa_spectrum.bins==dt*DFT': 9500, 'lazy.bins==dt*DFT': 27000,
                  'generate_fa_spectrum.bins==dt*DFT': 4500, 'calc_fa_spectrum.bins==dt*DFT': 9000,
                  'gen_fa_spectrum.nbins==N//2': 9500, 'lazy.nbins==N//2': 27000,
@@ -187,7 +215,9 @@ MIN_EVALS = {   # about half of what a normal run reaches
                  'after-raise.nbins==N//2': 13000, 'after-raise.bins==dt*DFT(own current values)': 13000,
                  'after-raise.freqs==k/(N*dt)': 13000, 'non-finite-record.spectrum-of-current-values': 3500,
                  'aba.third==first': 9000, 'after-readers.nbins==N//2': 4800, 'after-readers.bins==dt*DFT': 4800,
-                 'after-readers.freqs==k/(N*dt)': 4800, 'after-readers.max_fa_period-on-requested-grid': 1500}}
+                 'after-readers.freqs==k/(N*dt)': 4800, 'after-readers.max_fa_period-on-requested-grid': 1500,
+                 'argument-unchanged[0-d scalar]': 24000, 'settings-unchanged-by-spectrum-calls': 4800,
+                 'result-owned.repeat-after-overwrite==first': 4800}}
 EXHAUSTIVE = {'quick': 'every record length 2..130 (4 records each) through every entry point; every 2^e-1, 2^e, 2^e+1, e=3..11',
               'thorough': 'every record length 2..130 (12 records each) through every entry point; every 2^e-1, 2^e, 2^e+1, e=3..12'}
 
@@ -241,7 +271,43 @@ def _judge(ctx, cond, clause, wit, msg):
 
 
 def _is_int(v):
+    """Python int, NumPy integer scalar or 0-d integer array (round 5: every scalar form of n / p2_plus); never a bool."""
+    if isinstance(v, np.ndarray):
+        return v.ndim == 0 and v.dtype.kind in 'iu'
     return isinstance(v, (int, np.integer)) and not isinstance(v, (bool, np.bool_))
+
+
+def _dt_ok(dt):
+    """dt is a positive finite number in one of its scalar forms: Python float / int, NumPy float / integer scalar, 0-d
+    float / integer array (mutable: snapshot it like any other array). Never a bool."""
+    if isinstance(dt, np.ndarray):
+        return dt.ndim == 0 and dt.dtype.kind in 'fiu' and (dt.dtype.kind != 'f' or dt.dtype.itemsize >= 4) \
+            and bool(np.isfinite(dt)) and bool(dt > 0)
+    if isinstance(dt, (bool, np.bool_)) or not isinstance(dt, (int, float, np.integer, np.floating)):
+        return False
+    return bool(np.isfinite(dt)) and bool(dt > 0)
+
+
+def _dt_f32(dt):
+    return isinstance(dt, np.float32) or (isinstance(dt, np.ndarray) and dt.dtype == np.float32)
+
+
+def _frozen(v):
+    """Entry-time copy of a scalar argument: a 0-d array is mutable (an in-place `dt /= k` / `n += 1` inside a function
+    changes the caller's object), every other scalar form is immutable."""
+    return v.copy() if isinstance(v, np.ndarray) else v
+
+
+SCALAR_CLAUSE = 'argument-unchanged[0-d scalar]'
+
+
+def _check_scalars_unchanged(ctx, where, wit, pairs):
+    """pairs = [(name, live object, entry copy)]: every argument given as a 0-d array holds the same bits afterwards."""
+    bad = [nm for nm, live, snap in pairs if isinstance(live, np.ndarray) and live.ndim == 0 and not _same_bits(live, snap)]
+    if any(isinstance(live, np.ndarray) and live.ndim == 0 for _, live, _ in pairs):
+        _judge(ctx, not bad, SCALAR_CLAUSE, wit,
+               lambda: '%s changed the 0-d array(s) it was given as %s in place: %s' % (
+                   where, bad, ['%r -> %r' % (snap, live) for nm, live, snap in pairs if nm in bad]))
 
 
 def _record_of(ctx, sig):
@@ -255,19 +321,18 @@ def _record_of(ctx, sig):
     if v.ndim != 1 or v.size < 2:
         ctx.observe('out-of-domain: record shorter than 2 or not 1-D')
         return None
-    if v.dtype.kind not in 'fiuc':
+    if v.dtype.kind not in 'fiucb':            # 'b': on/off records (the library casts them to float on purpose)
         ctx.observe('out-of-domain: non-numeric record dtype (%s)' % v.dtype.kind)
         return None
     if v.dtype.kind == 'f' and v.dtype.itemsize < 4:
         ctx.observe('not judged: %s record (half precision)' % v.dtype)
         return None
-    loose = (v.dtype.kind == 'f' and v.dtype.itemsize == 4) or v.dtype == np.complex64 or isinstance(dt, np.float32)
+    loose = (v.dtype.kind == 'f' and v.dtype.itemsize == 4) or v.dtype == np.complex64 or _dt_f32(dt)
     x = v.astype(complex) if v.dtype.kind == 'c' else v.astype(float)     # complex: the record fas2signal hands back
     if not np.all(np.isfinite(x)):
         ctx.observe('out-of-domain: NaN/inf in record')
         return None
-    if isinstance(dt, (bool, np.bool_)) or not isinstance(dt, (int, float, np.integer, np.floating)) \
-            or not np.isfinite(dt) or not dt > 0:
+    if not _dt_ok(dt):
         ctx.observe('out-of-domain: dt not a positive finite number')
         return None
     return x, float(dt), (LOOSE if loose else TIGHT)
@@ -281,8 +346,9 @@ def _entry(ctx, sig):
     except Exception:
         raw = None
     rec = _record_of(ctx, sig)
-    return {'rec': rec, 'raw': raw, 'dt': getattr(sig, 'dt', None), 'cls': type(sig).__name__,
-            'pub': _public_state(sig), 'nf': _nonfinite_of(raw, getattr(sig, 'dt', None)) if rec is None else None}
+    dt_live = getattr(sig, 'dt', None)
+    return {'rec': rec, 'raw': raw, 'dt': _frozen(dt_live), 'dt_live': dt_live, 'cls': type(sig).__name__,
+            'pub': _public_state(sig), 'nf': _nonfinite_of(raw, dt_live) if rec is None else None}
 
 
 def _nonfinite_of(raw, dt):
@@ -292,10 +358,9 @@ def _nonfinite_of(raw, dt):
         return None
     if np.all(np.isfinite(raw)):
         return None
-    if isinstance(dt, (bool, np.bool_)) or not isinstance(dt, (int, float, np.integer, np.floating)) \
-            or not np.isfinite(dt) or not dt > 0:
+    if not _dt_ok(dt):
         return None
-    return int(raw.size), float(dt), (LOOSE if (raw.dtype.itemsize == 4 or raw.dtype == np.complex64 or isinstance(dt, np.float32)) else TIGHT)
+    return int(raw.size), float(dt), (LOOSE if (raw.dtype.itemsize == 4 or raw.dtype == np.complex64 or _dt_f32(dt)) else TIGHT)
 
 
 def _public_state(sig):
@@ -346,6 +411,7 @@ def _check_record_unchanged(ctx, where, wit, sig, st):
     except Exception:
         same = False
     _judge(ctx, same, 'argument-unchanged[record]', wit, '%s changed the values of the signal it was given' % where)
+    _check_scalars_unchanged(ctx, where, wit, [('dt', st.get('dt_live'), st['dt'])])
     bad = _public_diff(st['pub'], _public_state(sig))
     _judge(ctx, not bad, 'signal-argument.public-state-unchanged', wit,
            '%s changed public observables of the signal it was given: %s' % (where, bad))
@@ -354,14 +420,26 @@ def _check_record_unchanged(ctx, where, wit, sig, st):
 def _sig_wit(st, fn, **kw):
     """Witness from the entry state of the signal argument (values as they were when the call was made)."""
     dt = st['dt']
-    d = {'fn': fn, 'values': st['raw'], 'dt': dt, 'cls': st['cls'],
-         'dt_form': 'np.float32' if isinstance(dt, np.float32) else ('np.float64' if isinstance(dt, np.float64) else
-                                                                     ('int' if _is_int(dt) else None))}
-    for k in ('n', 'p2_plus'):                       # the scalar TYPE of an integer option is part of the case
-        if isinstance(kw.get(k), np.integer):
-            d[k + '_form'] = 'np.' + type(kw[k]).__name__
+    d = {'fn': fn, 'values': st['raw'], 'dt': float(dt) if isinstance(dt, np.ndarray) and dt.ndim == 0 else dt, 'cls': st['cls'],
+         'dt_form': _form_of(dt)}
     d.update(kw)
+    for k in ('n', 'p2_plus', 'n_pad'):              # the scalar TYPE of an integer option / a flag is part of the case
+        f = _form_of(kw.get(k))
+        if f is not None and f != 'int' or (k == 'n_pad' and f == 'int'):
+            d[k + '_form'] = f
+            d[k] = bool(kw[k]) if k == 'n_pad' else int(kw[k])
     return d
+
+
+def _form_of(v):
+    """Name of the scalar form of v ('np.float32', '0d-float64', 'int', ...; None for a Python float / bool / None)."""
+    if isinstance(v, np.ndarray) and v.ndim == 0:
+        return '0d-' + v.dtype.name
+    if isinstance(v, np.generic):
+        return 'np.' + type(v).__name__
+    if isinstance(v, int) and not isinstance(v, bool):
+        return 'int'
+    return None
 
 
 # ---------------------------------------------------------------------------------------------------- monitors
@@ -455,13 +533,17 @@ def _expected_n(ctx, npts, p2_plus, n):
 
 
 def _pre_gen(args, kwargs):
-    return _entry(CTX, args[0])
+    st = _entry(CTX, args[0])
+    st['opts'] = (_frozen(args[1] if len(args) > 1 else kwargs.get('p2_plus', 0)),
+                  _frozen(args[2] if len(args) > 2 else kwargs.get('n', None)))
+    return st
 
 
 def _post_gen(args, kwargs, result, st):
     self = args[0]
-    p2_plus = args[1] if len(args) > 1 else kwargs.get('p2_plus', 0)
-    n = args[2] if len(args) > 2 else kwargs.get('n', None)
+    p2_live = args[1] if len(args) > 1 else kwargs.get('p2_plus', 0)
+    n_live = args[2] if len(args) > 2 else kwargs.get('n', None)
+    p2_plus, n = st['opts']                 # the options as they were at call entry (a 0-d array is mutable)
     _GEN_SEQ[0] += 1
     rec = st['rec']
     nf = st.get('nf')
@@ -474,9 +556,14 @@ def _post_gen(args, kwargs, result, st):
     if len(_LAST) > 2000:
         for k in [k for k, v in _LAST.items() if v[0]() is None]:
             del _LAST[k]
+    if _is_int(p2_plus) and isinstance(p2_plus, np.ndarray):
+        p2_plus = p2_plus[()]               # NumPy scalar of the same type: hashable, JSON-able, not shared with the caller
+    if _is_int(n) and isinstance(n, np.ndarray):
+        n = n[()]
     _LAST[id(self)] = (weakref.ref(self), p2_plus, n, N, core.digest(np.asarray(self.values)))
     wit = lambda: _sig_wit(st, 'Signal.gen_fa_spectrum', p2_plus=p2_plus, n=n)
     _check_record_unchanged(CTX, 'gen_fa_spectrum', wit, self, st)
+    _check_scalars_unchanged(CTX, 'gen_fa_spectrum', wit, [('p2_plus', p2_live, p2_plus), ('n', n_live, n)])
     if N is None:
         return
     with attach.paused():
@@ -544,14 +631,29 @@ def _post_lazy(self, result, st, which):
 
 
 def _pre_sig0(args, kwargs):
-    """Entry state of the first positional / 'sig' / 'asig' argument."""
+    """Entry state of the first positional / 'sig' / 'asig' argument, and entry copies of the other (scalar) arguments."""
     sig = args[0] if args else kwargs.get('sig', kwargs.get('asig'))
-    return _entry(CTX, sig)
+    st = _entry(CTX, sig)
+    st['rest'] = [_frozen(a) for a in args[1:]]
+    st['kw'] = {k: _frozen(v) for k, v in kwargs.items() if k not in ('sig', 'asig')}
+    return st
+
+
+def _arg(st, args, kwargs, pos, name, default):
+    """(entry value, live object) of one scalar argument of a function monitored through _pre_sig0."""
+    if len(args) > pos:
+        return st['rest'][pos - 1], args[pos]
+    if name in kwargs:
+        return st['kw'][name], kwargs[name]
+    return default, default
 
 
 def _post_generate(args, kwargs, result, st):
     sig = args[0] if args else kwargs['sig']
-    n_pad = args[1] if len(args) > 1 else kwargs.get('n_pad', True)
+    n_pad, pad_live = _arg(st, args, kwargs, 1, 'n_pad', True)
+    if isinstance(n_pad, np.ndarray) and n_pad.size != 1:
+        CTX.observe('out-of-domain: n_pad not a scalar flag')
+        return
     rec = st['rec']
     if rec is None:
         nf = st.get('nf')
@@ -560,8 +662,10 @@ def _post_generate(args, kwargs, result, st):
                             O.n_padded(nf[0]) if n_pad else nf[0], result[0], result[1])
         return
     x, dt, T = rec
-    N = O.n_padded(len(x)) if n_pad else len(x)
+    N = O.n_padded(len(x)) if n_pad else len(x)      # truthiness: True, np.True_, a 0-d bool array and 1 all ask for padding
     _check_record_unchanged(CTX, 'generate_fa_spectrum', lambda: _sig_wit(st, 'generate_fa_spectrum', n_pad=n_pad), sig, st)
+    _check_scalars_unchanged(CTX, 'generate_fa_spectrum', lambda: _sig_wit(st, 'generate_fa_spectrum', n_pad=n_pad),
+                             [('n_pad', pad_live, n_pad)])
     ok_pair = isinstance(result, tuple) and len(result) == 2
     if not ok_pair:
         CTX.violation('generate_fa_spectrum.nbins==N//2', _sig_wit(st, 'generate_fa_spectrum', n_pad=n_pad),
@@ -573,8 +677,8 @@ def _post_generate(args, kwargs, result, st):
 
 def _post_calc(args, kwargs, result, st):
     sig = args[0] if args else kwargs['sig']
-    n = args[1] if len(args) > 1 else kwargs.get('n', None)
-    p2_plus = args[2] if len(args) > 2 else kwargs.get('p2_plus', None)
+    n, n_live = _arg(st, args, kwargs, 1, 'n', None)
+    p2_plus, p2_live = _arg(st, args, kwargs, 2, 'p2_plus', None)
     rec = st['rec']
     if rec is None:
         nf = st.get('nf')
@@ -586,6 +690,8 @@ def _post_calc(args, kwargs, result, st):
         return
     x, dt, T = rec
     _check_record_unchanged(CTX, 'calc_fa_spectrum', lambda: _sig_wit(st, 'calc_fa_spectrum', n=n, p2_plus=p2_plus), sig, st)
+    _check_scalars_unchanged(CTX, 'calc_fa_spectrum', lambda: _sig_wit(st, 'calc_fa_spectrum', n=n, p2_plus=p2_plus),
+                             [('n', n_live, n), ('p2_plus', p2_live, p2_plus)])
     if n is None and p2_plus is None:
         N = len(x)                       # the array-level function without padding
     else:
@@ -609,9 +715,10 @@ def check_inverse(ctx, where, wit, fas, dt, s):
     except Exception:
         ctx.observe('out-of-domain: spectrum not numeric')
         return
-    if fas.ndim != 1 or fas.size < 1 or not np.all(np.isfinite(fas)) or not (np.isfinite(dt) and dt > 0):
+    if fas.ndim != 1 or fas.size < 1 or not np.all(np.isfinite(fas)) or not _dt_ok(dt):
         ctx.observe('out-of-domain: inverse of empty / non-finite spectrum or bad dt')
         return
+    dt = float(dt)
     M = len(fas)
     N = 2 * M
     s = np.asarray(s)
@@ -640,11 +747,12 @@ def check_inverse(ctx, where, wit, fas, dt, s):
 def _pre_inverse(args, kwargs):
     """Snapshot of the spectrum argument before the helper runs (purity clause + a witness that holds the ORIGINAL)."""
     fas = args[0] if args else kwargs.get('fas')
+    dt = _frozen(args[1] if len(args) > 1 else kwargs.get('dt'))
     if isinstance(fas, np.ndarray):
-        return fas.copy()
+        return fas.copy(), dt
     if isinstance(fas, (list, tuple)):
-        return list(fas)
-    return None
+        return list(fas), dt
+    return None, dt
 
 
 def _check_argument_unchanged(ctx, where, wit, fas, snap):
@@ -670,24 +778,36 @@ def _check_argument_unchanged(ctx, where, wit, fas, snap):
               complex(fas[diff[0]]) if isinstance(diff, list) and diff else None))
 
 
+def _dt_wit(dt):
+    return {'dt': float(dt) if isinstance(dt, np.ndarray) and dt.ndim == 0 else dt, 'dt_form': _form_of(dt)}
+
+
 def _post_fas2values(args, kwargs, result, pre):
     fas = args[0] if args else kwargs['fas']
-    dt = args[1] if len(args) > 1 else kwargs['dt']
+    dt_live = args[1] if len(args) > 1 else kwargs['dt']
+    pre, dt = pre                                           # dt as it was when the call was made (0-d arrays are mutable)
     given = pre if pre is not None else fas                 # the spectrum as it was when the call was made
-    wit = lambda: {'fn': 'fas2values', 'fas': np.asarray(given), 'dt': dt}
+    wit = lambda: dict({'fn': 'fas2values', 'fas': np.asarray(given)}, **_dt_wit(dt))
     _check_argument_unchanged(CTX, 'fas2values', wit, fas, pre)
+    _check_scalars_unchanged(CTX, 'fas2values', wit, [('dt', dt_live, dt)])
     check_inverse(CTX, 'fas2values', wit, given, dt, result)
 
 
 def _post_fas2signal(args, kwargs, result, pre):
     fas = args[0] if args else kwargs['fas']
-    dt = args[1] if len(args) > 1 else kwargs['dt']
+    dt_live = args[1] if len(args) > 1 else kwargs['dt']
+    pre, dt = pre
     stype = args[2] if len(args) > 2 else kwargs.get('stype', 'signal')
     given = pre if pre is not None else fas
-    wit = lambda: {'fn': 'fas2signal', 'fas': np.asarray(given), 'dt': dt, 'stype': stype}
+    wit = lambda: dict({'fn': 'fas2signal', 'fas': np.asarray(given), 'stype': stype}, **_dt_wit(dt))
     _check_argument_unchanged(CTX, 'fas2signal', wit, fas, pre)
+    _check_scalars_unchanged(CTX, 'fas2signal', wit, [('dt', dt_live, dt)])
     want = 'Signal' if stype == 'signal' else 'AccSignal'
-    ok_t = type(result).__name__ == want and getattr(result, 'dt', None) == dt
+    try:
+        same_dt = bool(np.all(getattr(result, 'dt', None) == dt))
+    except Exception:
+        same_dt = False
+    ok_t = type(result).__name__ == want and same_dt
     _judge(CTX, ok_t, 'fas2signal.type+dt', wit, 'fas2signal(stype=%r, dt=%r) returned %s with dt=%r'
            % (stype, dt, type(result).__name__, getattr(result, 'dt', None)))
     if hasattr(result, 'values'):
@@ -759,7 +879,7 @@ def install(ctx):
 def _tclass(values, dt):
     """Tolerance class of a case for the driver-side relations (same rule as the monitors)."""
     v = np.asarray(values)
-    return LOOSE if (v.dtype == np.float32 or isinstance(dt, np.float32)) else TIGHT
+    return LOOSE if (v.dtype == np.float32 or _dt_f32(dt)) else TIGHT
 
 
 def _as_form(values, form):
@@ -779,12 +899,35 @@ def _as_form(values, form):
     return values
 
 
+def _scalar_as(v, form, default):
+    """v in the scalar form named by form: 'int', 'np.<type>' (NumPy scalar), '0d-<dtype>' (0-d array, a NEW object per call
+    of this function - the driver keeps it and hands the same object to every call of a case)."""
+    if form is None:
+        return default(v)
+    if form == 'int':
+        return int(v)
+    if form.startswith('0d-'):
+        return np.array(v, dtype=form[3:])
+    return getattr(np, form[3:])(v)
+
+
 def _dt_as(dt, form):
-    return {'np.float64': np.float64, 'np.float32': np.float32, 'int': int}.get(form, float)(dt)
+    return _scalar_as(dt, form, float)
 
 
 def _int_as(v, form):
-    return {'np.int64': np.int64, 'np.int32': np.int32}.get(form, int)(v)
+    if form in ('np.int16', 'np.uint8', 'np.int8', '0d-int16', '0d-uint8') and not 0 <= int(v) <= np.iinfo(form[3:]).max:
+        form = 'np.int64' if form.startswith('np.') else '0d-int64'      # the value does not fit the narrow type
+    return _scalar_as(v, form, int)
+
+
+def _flag_as(b, form):
+    """A boolean flag as True / np.True_ / a 0-d bool array / 1 (`flag is True` holds for the first form only)."""
+    return _scalar_as(bool(b), form, bool)
+
+
+INT_FORMS = [None, None, 'np.int64', 'np.int32', '0d-int64', '0d-int32']
+FLAG_FORMS = [None, 'np.bool', '0d-bool', 'int']
 
 
 def _snapshot(obj):
@@ -876,8 +1019,26 @@ def _draw_input(rng, npts, allow_f32=True):
     intval = bool(np.all(x == np.round(x)) and np.max(np.abs(x)) < 2 ** 52)
     k = rng.random()
     form = None
-    if k < 0.40:
+    if k < 0.35:
         xin, cont = x, 'f64'
+    elif k < 0.40:                                     # on/off records (bool dtype / Python bools): cast to float on purpose
+        kind = int(rng.integers(4))
+        if kind == 0:                                  # rectangular pulse(s)
+            b = np.zeros(npts, dtype=bool)
+            for _ in range(int(rng.integers(1, 4))):
+                i0 = int(rng.integers(0, npts))
+                b[i0:i0 + int(rng.integers(1, max(2, npts // 2)))] = True
+        elif kind == 1:                                # random telegraph
+            b = rng.random(npts) < float(rng.choice([0.1, 0.5, 0.9]))
+        elif kind == 2:                                # where the drawn record is positive
+            b = np.asarray(x) > 0
+        else:                                          # alternating (all the energy at the Nyquist frequency and the mean)
+            b = np.arange(npts) % 2 == int(rng.integers(2))
+        if rng.random() < 0.7:
+            xin, cont = b, 'bool'
+        else:
+            xin, cont = [bool(t) for t in b], 'list-bool'
+        rcls = 'on-off'
     elif k < 0.48 and intval:
         xin, cont = x.astype(np.int64), 'i64'
     elif k < 0.56:
@@ -922,7 +1083,7 @@ def _draw_dt(rng):
     if r < 0.24:
         return float(rng.choice([1e-9, 1e-6, 1.0, 10.0, 1e3])), None
     if r < 0.28:
-        return int(rng.choice([1, 2, 5])), 'int'
+        return int(rng.choice([1, 2, 5])), ['int', 'int', 'np.int64', 'np.int32', '0d-int64'][int(rng.integers(5))]
     if r < 0.40:                                       # steps for which dt/(dt/k) != k, (dt/k)*k != dt ...
         return gen.awkward_dt(rng, int(rng.choice([3, 7, 11, 49, 93]))), None
     dt = gen.dt(rng)
@@ -931,6 +1092,10 @@ def _draw_dt(rng):
         return float(np.float32(dt)), 'np.float32'
     if r < 0.16:
         return dt, 'np.float64'
+    if r < 0.26:                                       # 0-d arrays: the one MUTABLE scalar form
+        return dt, '0d-float64'
+    if r < 0.30:
+        return float(np.float32(dt)), '0d-float32'
     return dt, None
 
 
@@ -983,7 +1148,9 @@ def _calc(eqsig, s, style, n=None, p2=None):
     return eqsig.calc_fa_spectrum(sig=s, **kw) if style == 'kw-all' else eqsig.calc_fa_spectrum(s, **kw)
 
 
-def _generate(eqsig, s, style, n_pad=None):
+def _generate(eqsig, s, style, n_pad=None, flag_form=None):
+    if n_pad is not None and flag_form is not None:
+        n_pad = _flag_as(n_pad, flag_form)
     if n_pad is None:
         return eqsig.generate_fa_spectrum(sig=s) if style == 'kw-all' else eqsig.generate_fa_spectrum(s)
     if style == 'pos':
@@ -1027,6 +1194,10 @@ def rel_agreement(ctx, eqsig, p):
     style = p.get('style', 'kw')
     clsname, stype = p['cls'], p.get('stype', 'signal')
     p2, ne = _int_as(p['p2_plus'], p.get('int_form')), _int_as(p['n'], p.get('int_form'))
+    ff = p.get('flag_form')
+    pad_on, pad_off = _flag_as(True, ff), _flag_as(False, ff)      # ONE object each for every call of the case
+    scalars = [('dt', dt_in, _frozen(dt_in)), ('p2_plus', p2, _frozen(p2)), ('n', ne, _frozen(ne)),
+               ('n_pad', pad_on, _frozen(pad_on)), ('n_pad', pad_off, _frozen(pad_off))]
     xf = np.asarray(x, dtype=float)
     npts = len(xf)
     snap = _snapshot(x)
@@ -1043,7 +1214,8 @@ def rel_agreement(ctx, eqsig, p):
         fr = getattr(s, first)
         obj = (s.fa_spectrum, fr)
     _period(eqsig, s, style)
-    _agree(ctx, wit, xf, dt, obj, _generate(eqsig, s, style, None if style != 'pos' else True), 'default vs generate_fa_spectrum', T)
+    _agree(ctx, wit, xf, dt, obj, _generate(eqsig, s, style, None if (style != 'pos' and ff is None) else pad_on),
+           'default vs generate_fa_spectrum', T)
     _agree(ctx, wit, xf, dt, obj, _calc(eqsig, s, style, p2=_int_as(0, p.get('int_form'))), 'default vs calc_fa_spectrum(p2_plus=0)', T)
     _roundtrip(ctx, eqsig, xf, dt_in, O.n_padded(npts), obj[0], wit, 'default', stype if p.get('signal_on') == 'default' else None,
                T, style, p.get('fas_form'))
@@ -1065,7 +1237,7 @@ def rel_agreement(ctx, eqsig, p):
             obj = (s.fa_spectrum, s.fa_freqs)
             _agree(ctx, wit, xf, dt, obj, _calc(eqsig, s, style, n=ne, p2=p2), 'n=%d with p2_plus=%d' % (ne, p2), T)
     # unpadded
-    g = _generate(eqsig, s, style, False)
+    g = _generate(eqsig, s, style, pad_off)
     c = _calc(eqsig, s, style)
     s2 = _mk(eqsig, clsname, x, dt_in)
     _gen(s2, style, n=_int_as(npts, p.get('int_form')))
@@ -1082,11 +1254,13 @@ def rel_agreement(ctx, eqsig, p):
     s2.fa_frequencies
     s.fa_spectrum
     s.fa_freqs
-    _generate(eqsig, s, style, False)           # the same calls again, on the same objects
+    _generate(eqsig, s, style, pad_off)         # the same calls again, on the same objects
     _calc(eqsig, s, style)
     # the caller's record container is what it was before the first call
     _judge(ctx, _unchanged(x, snap), 'argument-unchanged[record]', wit,
            'the container the signals were built from changed during the calls (%s)' % type(x).__name__)
+    # ... and so is every scalar the caller holds as a 0-d array (dt, n, p2_plus, n_pad went to several calls each)
+    _check_scalars_unchanged(ctx, 'the calls of one case', wit, scalars)
 
 
 def _fas_as(fa, form):
@@ -1288,12 +1462,15 @@ def _draw_mutator(rng, kind, npts, dt):
             m = npts + int(rng.integers(1, npts + 4))
         v = gen.record(rng, m)[0]
         r = rng.random()
+        if r > 0.92:                                  # an on/off record (bool dtype / Python bools)
+            return [name, v > float(np.median(v))] if r > 0.95 else [name, [bool(t > 0) for t in v]]
         return [name, [float(t) for t in v] if r < 0.2 else (tuple(float(t) for t in v) if r < 0.3 else v)]
     if name == 'add_constant':
         c = float(rng.choice([-1.0, 1.0]) * 10.0 ** rng.uniform(-2, 1))
         return [name, int(round(c)) or 1] if rng.random() < 0.2 else [name, c]
     if name in ('add_series', 'add_signal'):
-        return [name, gen.record(rng, npts)[0]]
+        v = gen.record(rng, npts)[0]
+        return [name, v > 0] if rng.random() < 0.06 else [name, v]
     if name == 'butter_pass':
         nyq = 0.5 / dt
         lo, hi = float(nyq * rng.uniform(0.02, 0.2)), float(nyq * rng.uniform(0.4, 0.9))
@@ -2169,13 +2346,15 @@ def rel_readers(ctx, eqsig, p):
     try:
         A = _as_form(p['values'], p.get('form'))
         snap = _snapshot(A)
+        dt_in = _dt_as(p['dt'], p.get('dt_form'))         # a 0-d array: ONE mutable step shared by the object(s) and the caller
+        dt_snap = _frozen(dt_in)
         if p.get('cluster') is not None:
             cl = eqsig.Cluster([A, np.asarray(p['cluster'], dtype=float)], p['dt'], stypes='acc' if p['cls'] == 'AccSignal' else 'custom')
             objs = [cl.signal_by_index(0)]
         else:
-            objs = [_mk(eqsig, p['cls'], A, p['dt'])]
+            objs = [_mk(eqsig, p['cls'], A, dt_in)]
         if p.get('twin'):
-            objs.append(_mk(eqsig, 'Signal' if p['cls'] == 'AccSignal' else 'AccSignal', A, p['dt']))
+            objs.append(_mk(eqsig, 'Signal' if p['cls'] == 'AccSignal' else 'AccSignal', A, dt_in))
         asked = {}
 
         def run(r):
@@ -2221,6 +2400,7 @@ def rel_readers(ctx, eqsig, p):
         for o in range(len(objs)):
             judge(o, p['final'] if o == 0 else p['final'][::-1])
         _judge(ctx, _unchanged(A, snap), 'argument-unchanged[record]', wit, 'the array handed to the object(s) changed during the readers history')
+        _check_scalars_unchanged(ctx, 'a read / analysis call of the readers history', wit, [('dt', dt_in, dt_snap)])
     finally:
         _HISTORY[0] = None
 
@@ -2281,12 +2461,130 @@ def _draw_reader_history(rng, h, tier):
     final = [NAMES3[int(i)] for i in rng.permutation(3)[:int(rng.integers(1, 4))]]
     if rng.random() < 0.6:
         final.insert(int(rng.integers(len(final) + 1)), 'max_fa_period')
-    p = {'values': xin, 'form': form, 'dt': dt, 'cls': clsname, 'twin': twin, 'rel': 'rel.readers',
-         'int_form': [None, None, 'np.int64', 'np.int32'][int(rng.integers(4))],
+    p = {'values': xin, 'form': form, 'dt': dt, 'dt_form': '0d-float64' if rng.random() < 0.2 else None, 'cls': clsname, 'twin': twin,
+         'rel': 'rel.readers',
+         'int_form': INT_FORMS[int(rng.integers(len(INT_FORMS)))],
          'pre': pre, 'gens': gens, 'readers': readers, 'between': bool(rng.random() < 0.4), 'final': final}
     if not twin and form is None and cont == 'f64' and rng.random() < 0.15:
         p['cluster'] = _plain_record(rng, npts)[0]
     return p, names, rcls, cont
+
+
+# ---------------------------------------------------------------------------------------------------- round 5
+SETTINGS_CLAUSE = 'settings-unchanged-by-spectrum-calls'
+OWNED_CLAUSE = 'result-owned.repeat-after-overwrite==first'
+SETTING_CALLS = ['fa_spectrum', 'fa_freqs', 'fa_frequencies', 'max_fa_period', 'gen()', 'gen(p2_plus)', 'gen(n)', 'generate',
+                 'generate(n_pad=False)', 'calc', 'calc(n)', 'calc(p2_plus)', 'fas2values(own)', 'fas2signal(own)',
+                 'add_constant', 'reset_values/same']
+OWNED_POINTS = ['generate', 'generate(n_pad=False)', 'calc', 'calc(n)', 'calc(p2_plus)', 'fas2values', 'fas2signal']
+
+
+def _seq_as(v, form):
+    v = [float(t) for t in v]
+    return v if form == 'list' else (tuple(v) if form == 'tuple' else np.array(v))
+
+
+def rel_settings(ctx, eqsig, p):
+    """Checklist item 31: computing or reading a spectrum does not change what the user set. An object gets smoothing
+    frequencies and (AccSignal) response periods OUTSIDE the band of its data - targets above the Nyquist frequency, below
+    the first bin, periods below 2 dt and beyond the record, unsorted - through the constructor keyword or the setter; then
+    every spectrum entry point in random order at default and non-default options (and two value mutators, after which
+    the spectrum is regenerated): after each step the settings the object reports are bit for bit what the DRIVER gave
+    (its own pristine copy, not the container the object may have kept)."""
+    A = _as_form(p['values'], p.get('form'))
+    dt = _dt_as(p['dt'], p.get('dt_form'))
+    acc = p['cls'] == 'AccSignal'
+    sm_ref = np.array([float(t) for t in p['smooth']])
+    rt_ref = np.array([float(t) for t in p['rt']]) if acc else None
+    sm_in, rt_in = _seq_as(p['smooth'], p['seq_form']), (_seq_as(p['rt'], p['seq_form']) if acc else None)
+    wit = lambda: dict(p, fn='rel.settings')
+    kw = {}
+    if p['via'] == 'ctor':
+        kw['smooth_fa_freqs'] = sm_in
+        if acc:
+            kw['response_times'] = rt_in
+    s = (eqsig.AccSignal if acc else eqsig.Signal)(A, dt, **kw)
+    if p['via'] != 'ctor':
+        setattr(s, p['via'], sm_in)                   # 'smooth_fa_freqs' | 'smooth_fa_frequencies'
+        if acc:
+            s.response_times = rt_in
+    if p.get('warm'):
+        s.fa_spectrum
+
+    def settings_ok(after):
+        bad = []
+        try:
+            if not _same_bits(np.asarray(s.smooth_fa_freqs, dtype=float), sm_ref):
+                bad.append('smooth_fa_freqs %r -> %r' % (sm_ref.tolist(), np.asarray(s.smooth_fa_freqs).tolist()))
+            if not _same_bits(np.asarray(s.smooth_fa_frequencies, dtype=float), sm_ref):
+                bad.append('smooth_fa_frequencies')
+            if acc and not _same_bits(np.asarray(s.response_times, dtype=float), rt_ref):
+                bad.append('response_times %r -> %r' % (rt_ref.tolist(), np.asarray(s.response_times).tolist()))
+            if not _same_bits(np.asarray(sm_in, dtype=float), sm_ref) or (acc and not _same_bits(np.asarray(rt_in, dtype=float), rt_ref)):
+                bad.append("the caller's own container")
+        except Exception as e:
+            bad.append('reading the settings raised %s' % type(e).__name__)
+        _judge(ctx, not bad, SETTINGS_CLAUSE, wit,
+               lambda: 'after %s (npts=%d, dt=%r, Nyquist %.6g Hz) the user-given settings changed: %s'
+               % (after, s.npts, p['dt'], 0.5 / p['dt'], bad))
+
+    settings_ok('construction / assignment')
+    n = int(p['n'])
+    for call in p['calls']:
+        if call in ('fa_spectrum', 'fa_freqs', 'fa_frequencies'):
+            getattr(s, call)
+        elif call == 'max_fa_period':
+            eqsig.im.max_fa_period(s)
+        elif call.startswith('gen('):
+            s.gen_fa_spectrum(**({} if call == 'gen()' else ({'n': max(n, s.npts)} if call == 'gen(n)' else {'p2_plus': p['p2_plus']})))
+        elif call == 'add_constant':
+            s.add_constant(1.5)
+        elif call == 'reset_values/same':
+            s.reset_values(np.asarray(s.values)[::-1].copy())
+        elif call.endswith('(own)'):
+            (eqsig.fas2values if call.startswith('fas2values') else eqsig.fas2signal)(s.fa_spectrum, s.dt)
+        else:
+            _aba_call(eqsig, call, s, p, max(n, s.npts))
+        settings_ok(call)
+
+
+def rel_owned(ctx, eqsig, p):
+    """Checklist item 32: a result belongs to the caller. Every array an array-level function or an inverse helper
+    returned is overwritten in place; the same call again - on the same object and on a fresh one - gives the first value
+    bit for bit (a table handed out by reference from a cache would now hold the caller's scribbles), and the object's own
+    spectrum (optionally generated on the same N beforehand) is still that of its record (lazy monitor)."""
+    A, dt, clsname = np.asarray(p['A'], dtype=float), p['dt'], p['cls']
+    n = int(p['n'])
+    wit = lambda: dict(p, fn='rel.owned')
+    for point in p['points']:
+        s1 = _mk(eqsig, clsname, A, dt)
+        if p.get('warm') == 'n':
+            s1.gen_fa_spectrum(n=n)
+        elif p.get('warm') == 'p2_plus':
+            s1.gen_fa_spectrum(p2_plus=p['p2_plus'])
+        elif p.get('warm') == 'default':
+            s1.fa_spectrum
+        r1 = _aba_call(eqsig, point, s1, p, n)
+        snaps = [np.array(v) for v in r1]
+        n_over = 0
+        for v in r1:
+            if isinstance(v, np.ndarray) and v.flags.writeable and v.size:
+                v[...] = p['scribble']
+                n_over += 1
+        if not n_over:
+            ctx.observe('result-owned: %s returned no writeable array (not judged)' % point)
+            continue
+        for tag, obj in (('the same object', s1), ('a fresh object', _mk(eqsig, clsname, A, dt))):
+            r = _aba_call(eqsig, point, obj, p, n)
+            same = len(r) == len(snaps) and all(_same_bits(np.asarray(v), sn) for v, sn in zip(r, snaps))
+            _judge(ctx, same, OWNED_CLAUSE, wit,
+                   lambda: '%s on %s after the arrays of the first result were overwritten by the caller: the repeat differs '
+                           'from the first result (npts=%d, n=%d, p2_plus=%d): %s'
+                   % (point, tag, len(A), n, p['p2_plus'],
+                      [tol.describe(np.asarray(v), sn, rtol=0.0) for v, sn in zip(r, snaps) if not _same_bits(np.asarray(v), sn)][:1]))
+        s1.fa_spectrum                                # the object's own spectrum never was the array handed to the caller
+        s1.fa_freqs
+        eqsig.im.max_fa_period(s1)
 
 
 def _largest_prime_factor(n):
@@ -2352,7 +2650,8 @@ def _draw_case(rng, npts, i, fixed, ci):
     p = {'values': xin, 'form': form, 'dt': dt, 'dt_form': dt_form, 'cls': 'AccSignal' if ci % 2 else 'Signal',
          'p2_plus': int(i % 4) if fixed else int(rng.integers(0, 4)),
          'n': _explicit_n(rng, npts, i if fixed else int(rng.integers(0, 8))),
-         'int_form': [None, None, 'np.int64', 'np.int32'][int(rng.integers(4))],
+         'int_form': INT_FORMS[int(rng.integers(len(INT_FORMS)))],
+         'flag_form': FLAG_FORMS[int(rng.integers(len(FLAG_FORMS)))] if rng.random() < 0.6 else None,
          'style': ['kw', 'kw', 'pos', 'kw-all'][int(rng.integers(4))],
          'both': bool(rng.random() < 0.25),
          'fas_form': [None, None, None, 'list', 'tuple', 'readonly', 'strided', 'c64'][int(rng.integers(8))],
@@ -2537,6 +2836,65 @@ def run_shard(ctx):
             rel_aba(ctx, eqsig, q)
         except Exception as e:
             ctx.exception('aba.third==first', dict(q, fn='rel.aba'), e)
+    # -- round 5 (item 31): user-given settings outside the band of the data survive every spectrum call ---------------
+    n_settings = 192 if quick else 1536
+    for k in core.split_range(n_settings, ctx.shard, ctx.nshards):
+        if ctx.out_of_time():
+            ctx.observe('stopped by the safety-net budget')
+            break
+        npts = max(2, int(round(2.0 ** rng.uniform(1.0, 9.0))))
+        if rng.random() < 0.75:
+            xin, form, rcls, cont = _plain_record(rng, npts)[0], None, 'plain', 'f64'
+        else:
+            xin, form, rcls, cont = _draw_input(rng, npts)
+        dt, dt_form = (gen.dt(rng), None) if rng.random() < 0.7 else _draw_dt(rng)
+        if 'extreme' in rcls or not 1e-6 <= float(dt) <= 10:
+            dt, dt_form = gen.dt(rng), None
+        nyq, f1 = 0.5 / float(dt), 1.0 / (O.n_padded(npts) * float(dt))
+        sm = [nyq * float(rng.choice([1.0, 1.0 + 1e-9, 1.5, 10.0, 1e3])), f1 * float(rng.choice([1.0, 0.5, 1e-3])),
+              float(nyq * rng.uniform(0.01, 0.99))] + [float(nyq * 10.0 ** rng.uniform(-3, 1)) for _ in range(int(rng.integers(0, 6)))]
+        if rng.random() < 0.2:
+            sm.append(0.0)
+        sm = sm[:int(rng.integers(1, len(sm) + 1))] if rng.random() < 0.3 else sm
+        order = int(rng.integers(3))
+        sm = sorted(sm) if order == 0 else (sorted(sm, reverse=True) if order == 1 else [sm[int(i)] for i in rng.permutation(len(sm))])
+        rt = [float(dt) * float(rng.choice([0.5, 1.0, 2.0, 1.999])), float(dt) * npts * float(rng.choice([1.0, 3.0])),
+              float(10.0 ** rng.uniform(-2, 0.5))] + ([0.0] if rng.random() < 0.3 else [])
+        rt = [rt[int(i)] for i in rng.permutation(len(rt))][:int(rng.integers(1, len(rt) + 1))]
+        calls = [SETTING_CALLS[(k // 2 + j) % len(SETTING_CALLS)] if j == 0 else SETTING_CALLS[int(rng.integers(len(SETTING_CALLS)))]
+                 for j in range(int(rng.integers(3, 9)))]
+        q = {'values': xin, 'form': form, 'dt': dt, 'dt_form': dt_form, 'cls': 'AccSignal' if k % 2 else 'Signal', 'smooth': sm, 'rt': rt,
+             'seq_form': ['list', 'tuple', 'ndarray'][int(rng.integers(3))],
+             'via': ['ctor', 'smooth_fa_freqs', 'smooth_fa_frequencies'][(k // 2) % 3], 'warm': bool(rng.random() < 0.4),
+             'p2_plus': int(rng.integers(1, 4)), 'n': _explicit_n(rng, npts, int(rng.integers(0, 8))),
+             'stype': 'signal' if rng.random() < 0.5 else 'acc', 'inverse_of': 'n' if rng.random() < 0.5 else 'nopad', 'calls': calls}
+        ctx.case(core.digest(np.asarray(xin, dtype=float), 'settings', dt, q['cls'], repr(sm), repr(rt), repr(calls)), nontrivial=True,
+                 cls='settings/%s/via-%s/%s' % (q['cls'], q['via'], calls[0]),
+                 sample={'settings': True, 'npts': npts, 'dt': dt, 'dt_form': dt_form, 'cls': q['cls'], 'record': rcls, 'container': cont,
+                         'smooth_fa_freqs': sm, 'response_times': rt, 'nyquist': nyq, 'calls': calls, 'via': q['via']})
+        try:
+            rel_settings(ctx, eqsig, q)
+        except Exception as e:
+            ctx.exception(SETTINGS_CLAUSE, dict(q, fn='rel.settings'), e)
+    # -- round 5 (item 32): the arrays of an earlier result are overwritten, the call is repeated ------------------------
+    n_owned = 160 if quick else 1280
+    for k in core.split_range(n_owned, ctx.shard, ctx.nshards):
+        if ctx.out_of_time():
+            ctx.observe('stopped by the safety-net budget')
+            break
+        npts = max(2, int(round(2.0 ** rng.uniform(1.0, 9.0))))
+        q = {'A': _plain_record(rng, npts)[0], 'dt': gen.dt(rng), 'cls': 'AccSignal' if k % 2 else 'Signal',
+             'p2_plus': int(rng.integers(0, 4)), 'n': _explicit_n(rng, npts, k // 2), 'stype': 'signal' if rng.random() < 0.5 else 'acc',
+             'inverse_of': 'n' if rng.random() < 0.5 else 'nopad', 'warm': [None, 'n', 'p2_plus', 'default'][(k // 2) % 4],
+             'scribble': float(rng.choice([0.0, -7.25e3, 1e300])),
+             'points': [OWNED_POINTS[int(i)] for i in rng.permutation(len(OWNED_POINTS))[:4]]}
+        ctx.case(core.digest(q['A'], 'owned', q['dt'], q['cls'], q['n'], q['p2_plus'], repr(q['points'])), nontrivial=True,
+                 cls='owned/warm-%s' % q['warm'], sample={'owned': True, 'npts': npts, 'dt': q['dt'], 'n': q['n'], 'p2_plus': q['p2_plus'],
+                                                          'points': q['points'], 'warm': q['warm']})
+        try:
+            rel_owned(ctx, eqsig, q)
+        except Exception as e:
+            ctx.exception(OWNED_CLAUSE, dict(q, fn='rel.owned'), e)
     # -- informational probes, no verdict ---------------------------------------------------------------------
     if ctx.shard == 0:
         s = eqsig.AccSignal(np.sin(np.arange(40) * 0.3), 0.01)
@@ -2551,6 +2909,10 @@ def run_shard(ctx):
                   ('float n', lambda: s.gen_fa_spectrum(n=64.0)),
                   ('float p2_plus', lambda: s.gen_fa_spectrum(p2_plus=1.0)),
                   ('one-sample record', lambda: eqsig.Signal([1.0], 0.01).fa_spectrum),
+                  ('one-sample bool record', lambda: eqsig.Signal(np.array([True]), 0.01).fa_spectrum),
+                  ('n as a one-entry array', lambda: s.gen_fa_spectrum(n=np.array([64]))),
+                  ('bool p2_plus', lambda: s.gen_fa_spectrum(p2_plus=np.True_)),
+                  ('bool dt', lambda: eqsig.Signal([1.0, 2.0, 0.5], np.True_).fa_freqs),
                   ('float16 record', lambda: eqsig.Signal(np.sin(np.arange(40) * 0.3).astype(np.float16), 0.01).fa_spectrum)]
         for name, fn in probes:
             try:
@@ -2586,13 +2948,18 @@ def replay(w):
         rel_history(ctx, eqsig, w)
     elif fn == 'rel.readers':
         rel_readers(ctx, eqsig, w)
+    elif fn == 'rel.settings':
+        rel_settings(ctx, eqsig, w)
+    elif fn == 'rel.owned':
+        rel_owned(ctx, eqsig, w)
+        rel_owned(ctx, eqsig, w)    # again: a cache filled (and scribbled on) by the first pass is then in place
     elif fn == 'rel.aba':
         rel_aba(ctx, eqsig, w)
         rel_aba(ctx, eqsig, w)      # again: process-wide state left by the first pass (grown buffers, memos) is then in place
     elif fn == 'fas2values':
-        eqsig.fas2values(w['fas'], w['dt'])
+        eqsig.fas2values(w['fas'], _dt_as(w['dt'], w.get('dt_form')))
     elif fn == 'fas2signal':
-        eqsig.fas2signal(w['fas'], w['dt'], stype=w['stype'])
+        eqsig.fas2signal(w['fas'], _dt_as(w['dt'], w.get('dt_form')), stype=w['stype'])
     else:
         s = _mk(eqsig, w['cls'], w['values'], _dt_as(w['dt'], w.get('dt_form')))
         prior = w.get('prior_gen')
@@ -2609,7 +2976,7 @@ def replay(w):
             else:
                 getattr(s, fn.split('.')[1])
         elif fn == 'generate_fa_spectrum':
-            eqsig.generate_fa_spectrum(s, n_pad=w['n_pad'])
+            eqsig.generate_fa_spectrum(s, n_pad=_flag_as(w['n_pad'], w.get('n_pad_form')))
         elif fn == 'calc_fa_spectrum':
             eqsig.calc_fa_spectrum(s, n=w['n'], p2_plus=w['p2_plus'])
         else:
